@@ -248,6 +248,8 @@ StringDictionaryHASHHF::StringDictionaryHASHHF(IteratorDictString *it, uint len,
     builder->insertEndingSubstr(&codeSubstr, &ptrSubstr, &textSubstr,
                                 &lenSubstr);
 
+  // The third closing byte is part of the saved text as well
+  textStrings[bytesStrings] = 0;
   bytesStrings++;
 
   table = builder->getTable();
